@@ -1180,3 +1180,202 @@ Proof.
   cbn [nodupb_pairs] in H. apply andb_true_iff in H. destruct H as [H1 H2].
   constructor; [|apply IH; exact H2]. intro Hin. apply meme_In in Hin. rewrite Hin in H1. discriminate.
 Qed.
+
+(* ------------------------------------------------------------------ *)
+(* Part 6: deferred decisions, pathwise                                   *)
+(* ---- pathwise: percolation_based_discrete_SIR = basic_discrete_SIR on a common symmetric table ---- *)
+
+Lemma perc_loop_det : forall tt pick es kept ql,
+  exists ql', perc_loop (det_rules tt pick) es kept ql =
+              Ret (kept ++ filter (fun e => tt (fst e) (snd e) O) es, ql').
+Proof.
+  intros tt pick es. induction es as [|[u v] es IH]; intros kept ql.
+  - eexists. cbn [perc_loop filter]. rewrite app_nil_r. reflexivity.
+  - cbn [perc_loop det_rules r_test bind filter fst snd]. destruct (tt u v O).
+    + destruct (IH (kept ++ [(u, v)]) ((O, u, v) :: ql)) as [ql' E]. exists ql'. rewrite E.
+      rewrite <- app_assoc. reflexivity.
+    + apply IH.
+Qed.
+
+Lemma edges_from_sound : forall g nodes seen a b,
+  In (a, b) (edges_from g nodes seen) -> In a nodes /\ In b (gadj g a).
+Proof.
+  intros g nodes. induction nodes as [|x r IH]; intros seen a b H; [destruct H|].
+  cbn [edges_from] in H. apply in_app_or in H. destruct H as [H|H].
+  - apply in_map_iff in H. destruct H as [w [E Hw]]. injection E as E1 E2. subst x w.
+    apply filter_In in Hw. split; [left; reflexivity|apply Hw].
+  - apply IH in H. split; [right; apply H|apply H].
+Qed.
+
+Lemma edges_from_complete : forall g nodes seen a b,
+  In a nodes -> In b (gadj g a) -> In a (gadj g b) -> ~ In a seen -> ~ In b seen ->
+  In (a, b) (edges_from g nodes seen) \/ In (b, a) (edges_from g nodes seen).
+Proof.
+  intros g nodes. induction nodes as [|x r IH]; intros seen a b Ha Hb Hab Has Hbs; [destruct Ha|].
+  cbn [edges_from]. destruct (N.eq_dec x a) as [E|E].
+  - subst x. left. apply in_or_app. left. apply in_map. apply filter_In. split; [exact Hb|].
+    apply negb_true_iff. apply dmem_false. exact Hbs.
+  - destruct (N.eq_dec x b) as [E'|E'].
+    + subst x. right. apply in_or_app. left. apply in_map. apply filter_In. split; [exact Hab|].
+      apply negb_true_iff. apply dmem_false. exact Has.
+    + destruct Ha as [Ha|Ha]; [contradiction|].
+      destruct (IH (x :: seen) a b Ha Hb Hab) as [H|H].
+      * intros [H|H]; [congruence|contradiction].
+      * intros [H|H]; [congruence|contradiction].
+      * left. apply in_or_app. right. exact H.
+      * right. apply in_or_app. right. exact H.
+Qed.
+
+Section Pathwise.
+Variable g : graph.
+Variable tt : node -> node -> nat -> bool.
+Variable pick : nat -> node -> nat.
+Variable full : bool.
+Variables i0 r0 : list node.
+Variable tmin : Q.
+Variable tmax : xtime.
+Hypothesis Hundir : gdirected g = false.
+Hypothesis Hnd : NoDup (gnodes g).
+Hypothesis Hadj : forall u v, In u (gnodes g) -> In v (gadj g u) -> In v (gnodes g).
+Hypothesis Hsym : forall u v, In u (gnodes g) -> In v (gadj g u) -> In u (gadj g v).
+Hypothesis Htt : forall u v, tt u v O = tt v u O.
+Hypothesis Hi0 : forall v, In v i0 -> In v (gnodes g).
+Hypothesis Hr0 : forall v, In v r0 -> In v (gnodes g).
+Hypothesis Hi0nd : NoDup i0.
+Hypothesis Hr0nd : NoDup r0.
+Hypothesis Hdisj : forall v, In v i0 -> ~ In v r0.
+
+Definition keptT : list (node * node) := filter (fun e => tt (fst e) (snd e) O) (gedges g).
+Definition HG : graph := perc_graph g keptT.
+Definition ttH (u v : node) (_ : nat) : bool := edge_exists HG u v.
+
+Lemma HG_adj : forall u v, In u (gnodes g) ->
+  (In v (gadj HG u) <-> In v (gadj g u) /\ tt u v O = true).
+Proof.
+  intros u v Hu. unfold HG. cbn [perc_graph gadj]. rewrite perc_adj_In. unfold keptT, gedges. rewrite Hundir.
+  rewrite !filter_In. cbn [fst snd]. split.
+  - intros [[H1 H2]|[H1 H2]].
+    + apply edges_from_sound in H1. split; [apply H1|exact H2].
+    + apply edges_from_sound in H1. destruct H1 as [Hv Hin]. split; [apply (Hsym v u Hv Hin)|rewrite Htt; exact H2].
+  - intros [H1 H2].
+    destruct (edges_from_complete g (gnodes g) [] u v Hu H1 (Hsym u v Hu H1)) as [H|H]; try (intros []).
+    + left. split; [exact H|exact H2].
+    + right. split; [exact H|rewrite Htt; exact H2].
+Qed.
+
+Lemma HG_adj_sub : forall u v, In u (gnodes HG) -> In v (gadj HG u) -> In v (gnodes HG).
+Proof.
+  intros u v Hu Hv. change (gnodes HG) with (gnodes g) in *. apply HG_adj in Hv; [|exact Hu].
+  apply Hadj with u; [exact Hu|apply Hv].
+Qed.
+
+Lemma hit_HG : forall I v, (forall u, In u I -> In u (gnodes g)) ->
+  hit HG (T0 ttH) I v = hit g (T0 tt) I v.
+Proof.
+  intros I v HI. unfold hit. induction I as [|u I IH]; [reflexivity|].
+  cbn [existsb]. rewrite IH by (intros x Hx; apply HI; right; exact Hx). f_equal.
+  unfold T0, ttH, edge_exists.
+  assert (Hu : In u (gnodes g)) by (apply HI; left; reflexivity).
+  destruct (mem v (gadj HG u)) eqn:E.
+  - apply dmem_In in E. apply HG_adj in E; [|exact Hu]. destruct E as [E1 E2].
+    apply dmem_In in E1. rewrite E1, E2. reflexivity.
+  - cbn [andb]. destruct (mem v (gadj g u)) eqn:E1; [|reflexivity]. destruct (tt u v O) eqn:E2; [|reflexivity].
+    apply dmem_false in E. exfalso. apply E. apply HG_adj; [exact Hu|]. split; [apply dmem_In; exact E1|exact E2].
+Qed.
+
+Lemma gen_HG : forall k, gen HG (T0 ttH) i0 r0 k = gen g (T0 tt) i0 r0 k.
+Proof.
+  induction k as [|k IH]; [reflexivity|].
+  cbn [gen]. rewrite IH. unfold gen_next.
+  assert (E : filter (hit HG (T0 ttH) (snd (gen g (T0 tt) i0 r0 k))) (fst (gen g (T0 tt) i0 r0 k)) =
+              filter (hit g (T0 tt) (snd (gen g (T0 tt) i0 r0 k))) (fst (gen g (T0 tt) i0 r0 k))).
+  { apply filter_ext_in. intros v Hv. apply hit_HG. intros u Hu. apply (Ig_sub g (T0 tt) i0 r0 k). exact Hu. }
+  rewrite E. reflexivity.
+Qed.
+
+
+Lemma Sg_HG : forall k, Sg HG (T0 ttH) i0 r0 k = Sg g (T0 tt) i0 r0 k.
+Proof. intro k. unfold Sg. rewrite gen_HG. reflexivity. Qed.
+Lemma Ig_HG : forall k, Ig HG (T0 ttH) i0 r0 k = Ig g (T0 tt) i0 r0 k.
+Proof. intro k. unfold Ig. rewrite gen_HG. reflexivity. Qed.
+
+Lemma Rg_HG : forall k, Rg HG ttH i0 r0 k = Rg g tt i0 r0 k.
+Proof. induction k as [|k IH]; [reflexivity|]. cbn [Rg]. rewrite IH, Ig_HG. reflexivity. Qed.
+
+Lemma rows_HG : forall K, rows_to HG ttH i0 r0 tmin K = rows_to g tt i0 r0 tmin K.
+Proof.
+  induction K as [|K IH]; [reflexivity|].
+  cbn [rows_to]. rewrite IH, Sg_HG, Ig_HG, (Rg_HG (S K)). reflexivity.
+Qed.
+
+Lemma events_HG : forall fl K v, events_to HG ttH fl i0 r0 tmin tmax K v = events_to g tt fl i0 r0 tmin tmax K v.
+Proof.
+  intro fl. induction K as [|K IH]; intro v; [reflexivity|].
+  cbn [events_to]. rewrite IH, !Ig_HG. reflexivity.
+Qed.
+
+Lemma stop_HG : forall k, stop HG ttH i0 r0 tmin tmax k = stop g tt i0 r0 tmin tmax k.
+Proof. intro k. unfold stop. rewrite Ig_HG. reflexivity. Qed.
+
+(* on a common symmetric table of coins percolation_based_discrete_SIR and basic_discrete_SIR
+   return the same rows and the same node histories, whatever the two iteration orders *)
+Theorem perc_sir_pathwise_sec : forall ord1 ord2 fuel1 fuel2,
+  perm_oracle ord1 -> perm_oracle ord2 ->
+  (length (gnodes g) < fuel1)%nat -> (length (gnodes g) < fuel2)%nat ->
+  exists outB outP,
+    basic_discrete_SIR_R g (det_rules tt pick) ord1 (Some i0) (Some r0) None tmin tmax full fuel1 = Ret outB /\
+    percolation_based_discrete_SIR_R g (det_rules tt pick) ord2 (Some i0) (Some r0) None tmin tmax full fuel2 = Ret outP /\
+    so_rows (o_sim outB) = so_rows (o_sim outP) /\
+    option_map fd_hist (so_full (o_sim outB)) = option_map fd_hist (so_full (o_sim outP)).
+Proof.
+  intros ord1 ord2 fuel1 fuel2 H1 H2 Hf1 Hf2.
+  destruct (dsir_from_l1 g tt pick full i0 r0 tmin tmax Hnd Hadj Hi0 Hr0 Hi0nd Hr0nd Hdisj ord1 H1 fuel1 Hf1)
+    as [K1 [o1 [Hs1 [Hr1 [Hrows1 Hh1]]]]].
+  destruct (dsir_from_l1 HG ttH pick full i0 r0 tmin tmax Hnd HG_adj_sub Hi0 Hr0 Hi0nd Hr0nd Hdisj ord2 H2 fuel2 Hf2)
+    as [K2 [o2 [Hs2 [Hr2 [Hrows2 Hh2]]]]].
+  assert (E : K1 = K2).
+  { apply (first_stop_unique g tt i0 r0 tmin tmax); [exact Hs1|].
+    destruct Hs2 as [Ha Hb]. split.
+    - intros j Hj. rewrite <- stop_HG. apply Ha. exact Hj.
+    - rewrite <- stop_HG. exact Hb. }
+  subst K2.
+  destruct (perc_loop_det tt pick (gedges g) [] []) as [ql' Eperc].
+  exists o1, (add_qlog ql' o2). split; [exact Hr1|]. split.
+  - unfold percolation_based_discrete_SIR_R, percolate_network_R. rewrite Eperc. cbn [bind fst snd app].
+    change (has_edge_rules (perc_graph g (filter (fun e => tt (fst e) (snd e) O) (gedges g))) (det_rules tt pick))
+      with (det_rules ttH pick).
+    change (perc_graph g (filter (fun e => tt (fst e) (snd e) O) (gedges g))) with HG.
+    unfold discrete_SIR. cbn [with_initial opt_list]. rewrite Hr2. reflexivity.
+  - cbn [add_qlog o_sim]. split.
+    + rewrite Hrows1, Hrows2. unfold l1_rows. rewrite rows_HG. reflexivity.
+    + destruct full.
+      * destruct Hh1 as [t1 Hh1]. destruct Hh2 as [t2 Hh2]. rewrite Hh1, Hh2. cbn [option_map fd_hist].
+        f_equal. unfold l1_hist. change (gnodes HG) with (gnodes g). apply map_ext. intro u. rewrite events_HG. reflexivity.
+      * rewrite Hh1, Hh2. reflexivity.
+Qed.
+
+End Pathwise.
+
+Definition sym_graphb (g : graph) : bool :=
+  negb (gdirected g) && forallb (fun u => forallb (fun v => mem u (gadj g v)) (gadj g u)) (gnodes g).
+
+Theorem perc_sir_pathwise : forall g tt pick ord1 ord2 i0 r0 tmin tmax full fuel1 fuel2,
+  wf_inputb g i0 r0 = true -> sym_graphb g = true -> (forall u v, tt u v O = tt v u O) ->
+  perm_oracle ord1 -> perm_oracle ord2 ->
+  (length (gnodes g) < fuel1)%nat -> (length (gnodes g) < fuel2)%nat ->
+  exists outB outP,
+    basic_discrete_SIR_R g (det_rules tt pick) ord1 (Some i0) (Some r0) None tmin tmax full fuel1 = Ret outB /\
+    percolation_based_discrete_SIR_R g (det_rules tt pick) ord2 (Some i0) (Some r0) None tmin tmax full fuel2 = Ret outP /\
+    so_rows (o_sim outB) = so_rows (o_sim outP) /\
+    option_map fd_hist (so_full (o_sim outB)) = option_map fd_hist (so_full (o_sim outP)).
+Proof.
+  intros g tt pick ord1 ord2 i0 r0 tmin tmax full fuel1 fuel2 Hwf Hsg Htt H1 H2 Hf1 Hf2.
+  destruct (wf_input_props g i0 r0 Hwf) as [Hnd [Hadj [Hi0 [Hr0 [Hi0nd [Hr0nd Hdisj]]]]]].
+  unfold sym_graphb in Hsg. apply andb_true_iff in Hsg. destruct Hsg as [Hd Hs].
+  apply negb_true_iff in Hd.
+  assert (Hsym : forall u v, In u (gnodes g) -> In v (gadj g u) -> In u (gadj g v)).
+  { intros u v Hu Hv. rewrite forallb_forall in Hs. specialize (Hs u Hu). cbv beta in Hs.
+    rewrite forallb_forall in Hs. apply dmem_In. apply Hs. exact Hv. }
+  exact (perc_sir_pathwise_sec g tt pick full i0 r0 tmin tmax Hd Hnd Hadj Hsym Htt Hi0 Hr0 Hi0nd Hr0nd Hdisj
+           ord1 ord2 fuel1 fuel2 H1 H2 Hf1 Hf2).
+Qed.
